@@ -314,6 +314,10 @@ func battery(args []string, pats []string, maxSel int, dump bool, lean bool) []s
 // ---------------------------------------------------------------- generators
 
 // exhaustive: every history of length <= maxLen over the mutator alphabet, each followed by the battery.
+// shard/nshards: the histories are split by their first mutator (index mod nshards); the empty
+// history belongs to shard 0.  nshards <= 1: everything.
+var shard, nshards int
+
 func exhaustive(w *tr.W, keys []string, withBulk bool, maxLen int, args, pats []string, lean bool) {
 	var alpha []string
 	for _, k := range keys {
@@ -329,12 +333,17 @@ func exhaustive(w *tr.W, keys []string, withBulk bool, maxLen int, args, pats []
 	bat := battery(args, pats, len(keys), true, lean)
 	var rec func(prefix []string)
 	rec = func(prefix []string) {
-		ops := append(append([]string(nil), prefix...), bat...)
-		both(w, ops)
+		if len(prefix) > 0 || nshards <= 1 || shard == 0 {
+			ops := append(append([]string(nil), prefix...), bat...)
+			both(w, ops)
+		}
 		if len(prefix) == maxLen {
 			return
 		}
-		for _, a := range alpha {
+		for ai, a := range alpha {
+			if len(prefix) == 0 && nshards > 1 && ai%nshards != shard {
+				continue
+			}
 			op := a
 			if strings.HasPrefix(a, "P ") {
 				op = a + " " + strconv.Itoa(len(prefix)+1)
@@ -630,6 +639,8 @@ func main() {
 	mode := flag.String("mode", "exhaustive", "exhaustive|ab|abstar|bytes|nul|adversarial")
 	tier := flag.String("tier", "quick", "quick|thorough")
 	replay := flag.String("replay", "", "case file to re-execute")
+	flag.IntVar(&shard, "shard", 0, "exhaustive mode: which shard")
+	flag.IntVar(&nshards, "nshards", 1, "exhaustive mode: number of shards")
 	flag.Parse()
 	debug.SetMaxStack(64 << 20)
 	w := tr.NewW()
